@@ -400,7 +400,8 @@ impl PartialEq for Tracked {
     fn eq(&self, other: &Tracked) -> bool {
         touch_only(other, "eq-rhs");
         cmp_hook(self, "eq");
-        self.val == other.val
+        // the NaN-like value is not even equal to itself
+        self.val == other.val && self.val != NAN_VAL
     }
 }
 impl Eq for Tracked {}
@@ -451,7 +452,7 @@ impl fmt::Debug for Plain {
 impl PartialEq<Plain> for Tracked {
     fn eq(&self, other: &Plain) -> bool {
         cmp_hook(self, "eq-plain");
-        self.val == other.0
+        self.val == other.0 && self.val != NAN_VAL
     }
 }
 
